@@ -10,6 +10,8 @@ CONSTANTS
   PRICE = {10}
   QTY = {1}
   BUNDLE = {"lim"}
-INVARIANTS TypeOK
-PROPERTIES Answers
+  STALL = {2, 3}
+  LateResponseOK = TRUE
+INVARIANTS TypeOK AtMostOne ExactlyOnce Kind Attribution
+PROPERTIES Answers Stable
 CHECK_DEADLOCK FALSE
